@@ -230,7 +230,7 @@ def step (ms : MState) (op : String) (args impl : List String) : MState × Pred 
   | "dumpx", _ => (ms, .skip)      -- a reader process on the closed file; compared by the caller
   | _, _ =>
   if !ms.isOpen then fail "op on a closed file" else
-  if ms.ro && !(["get", "has", "count", "list", "valid", "drop", "idof", "dump", "dumpx", "xcheck", "xlinks", "countlink", "listlink",
+  if ms.ro && !(["getlinkh", "get", "has", "count", "list", "valid", "drop", "idof", "dump", "dumpx", "xcheck", "xlinks", "countlink", "listlink",
                  "haslink", "getlink", "dims", "gdim", "pget", "da_read1", "getf", "find", "validate"].contains op) then fail "mutator in a read-only session" else
   match op, args with
   | "mk", slot :: kind :: par :: nameTok :: typeTok :: extra =>
@@ -448,6 +448,35 @@ def step (ms : MState) (op : String) (args impl : List String) : MState × Pred 
       let cname := if rel == "ref" then "references" else if rel == "src" then "sources" else groupContainer (rel.drop 1).toString
       (ms, .exact ["ok", fmtList (childIds s h.obj cname)])
     | _ => fail "listlink"
+  | "getlinkh", [slot, rel, holder, how, key] =>
+    match slot? ms holder with
+    | some (some h) =>
+      if rel == "meta" then
+        -- metadata(): the link target's id, looked up again in the section tree
+        (match s.optGroup h.obj "metadata" with
+         | some t => (match findSectionById s (idOf s t) with
+           | some f => (bind ms slot (some { kind := "S", obj := f, blk := 0 }), .exact ["ok", idOf s f])
+           | none => (bind ms slot none, .exact ["ok", "~"]))
+         | none => (bind ms slot none, .exact ["ok", "~"]))
+      else
+      let cname := if rel == "ref" then "references" else if rel == "src" then "sources" else groupContainer (rel.drop 1).toString
+      let kind := if rel == "ref" then "A" else if rel == "src" then "O" else (rel.drop 1).toString
+      let found : Option (Option ObjId) :=
+        if how == "idx" then
+          (match key.toNat? with
+           | some i => if i < countIn s (s.optGroup h.obj cname) then some (nthChild s (s.optGroup h.obj cname) i) else none
+           | none => none)
+        else match keyOf ms how key with
+          | some k =>
+            if rel == "ref" then some (getReference s h.obj h.blk k)
+            else if rel == "src" then some (getAttachedSource s h k)
+            else let (nm, i) := identOfString k; some (grpFind s h.obj kind nm i)
+          | none => none
+      (match found with
+       | some (some o) => (bind ms slot (some { kind := kind, obj := o, blk := h.blk }), .exact ["ok", idOf s o])
+       | some none => (bind ms slot none, .exact ["ok", "~"])
+       | none => fail "getlinkh outside the modelled lookups")
+    | _ => fail "getlinkh through an uninitialised holder"
   | "haslink", _ => (ms, .skip)
   | "getlink", _ => (ms, .skip)
   | "single", [field, holder, how, key] =>
